@@ -442,6 +442,7 @@ package parse
 //@   at call (*lexer).columnNumber#0 assert[col-of-pos-or-of-the-enclosing-command;C19] ite(t.fileLex != nil, arg0 == t.fileLex && arg1 == t.filePos, arg0 == t.lex && arg1 == pos)
 //@   at call (*lexer).columnNumber#0 after set cn = res
 //@   at call errortypes.NewErrFilePosf#0 assert[file-line-col;C19] arg0 == t.name && arg1 == ln && arg2 == cn
+//@   at call errortypes.NewErrFilePosf#0 assert[the-file-name-is-an-argument-never-part-of-the-format;C19] arg3 == "template %s:%d:%d: %s" && len(arg4) == 4 && unbox(arg4[0], string) == t.name
 //@   at call errortypes.NewErrFilePosf#0 after set ev = res
 //@   at call panic#0 assert[raises-that-error;C19] arg0 == ev
 //@ func (*tree).errorf
